@@ -154,11 +154,36 @@ def depth_bound_rules(ctx):
             ctx.flows(f, p, 1, from_call='PagePath::with_child', what='the path handed down is the current path extended by the child')
         for p in wc:
             ctx.flows(f, p, 1, from_call='BranchAccessor::child_page', what='the path is extended by the child about to be visited')
-        ct = ctx.sites(f, 'contains', exact=1)
-        for p in ct:
-            ctx.flows(f, p, 1, from_call='BranchAccessor::child_page', what='the child is looked up among its own ancestors')
-            ctx.flows(f, p, 0, from_call='PagePath::parents')
-        ctx.guarded(f, rec, [S.false_of('contains')], 'a child that is one of its own ancestors is not descended into')
+        if f.calls_to('contains'):
+            ct = ctx.sites(f, 'contains', exact=1)
+            for p in ct:
+                ctx.flows(f, p, 1, from_call='BranchAccessor::child_page', what='the child is looked up among its own ancestors')
+                ctx.flows(f, p, 0, from_call='PagePath::parents')
+            ctx.guarded(f, rec, [S.false_of('contains')], 'a child that is one of its own ancestors is not descended into')
+        else:
+            # the test moved into a local predicate: a bool function that looks its argument up
+            # in PagePath::parents
+            preds = []
+            for c in f.calls:
+                if f.blocks[c.bb]['c'] or not c.callee or c.t.get('dty') != 'bool':
+                    continue
+                try:
+                    g = ctx.facts.fn(c.callee)
+                except core.AnchorError:
+                    continue
+                inner = [x for fam in g.family() for x in fam.calls_to('contains')]
+                if inner and all(x.t['a'][0][0] != 'k' and core.flows_from_call(x.fn, x.t['a'][0], 'PagePath::parents') for x in inner):
+                    preds.append(c)
+            ok_ = len(preds) == 1
+            ctx._ob(ok_, ctx.sample('sites', f, f.line, 'the ancestor test (directly or through one local predicate)'))
+            if not ok_:
+                ctx.violate('floor|%s|ancestor-test' % f.path, 'expected the ancestor test (`parents().contains(child)`, directly or in one local predicate), found %d' % len(preds), f, f.line)
+            for c in preds:
+                okf = any(a[0] != 'k' and core.flows_from_call(f, a, 'BranchAccessor::child_page') for a in c.t['a'])
+                ctx._ob(okf, ctx.sample('flow', f, c.line, 'the child is handed to the ancestor test'))
+                if not okf:
+                    ctx.violate('flow|%s|ancestor-test-child' % f.path, 'the ancestor test is not applied to the child about to be visited', f, c.line)
+                ctx.guarded(f, rec, [S.false_of(core.strip_generics(c.callee))], 'a child that is one of its own ancestors is not descended into')
     for pat in ('Btree::first_helper', 'Btree::last_helper'):
         f = ctx.fn(pat)
         if f is None:
